@@ -49,7 +49,7 @@ def load_xarray_dataset(
     run_info = RunInfo.load(run_folder)
     return load_xarray_dataset(
         run_info.mapspecs,
-        run_info.inputs,
+        {**run_info.defaults, **run_info.inputs},  # a mapped input may be supplied by a default
         run_folder=run_folder,
         output_names=output_name,  # type: ignore[arg-type]
         load_intermediate=load_intermediate,
